@@ -72,7 +72,7 @@ PI = [
     "forall(j, implies(0 <= j < len(heap), has(in_mst, heap[j][2]) and " + OFFERED.format(a="heap[j][2]", b="heap[j][3]", w="heap[j][0]") + "), trig=heap[j])",
     "forall(x, implies(has(in_mst, x), has(nodes, x)), sorts={'x': 'U<Node>'}, trig=has(in_mst, x))",
 ]
-REG.fn(M, "prim", prop="C13", ret="Result[opt[" + PE + "]]", lemmas=["wsumN"], strict_inf=True,
+REG.fn(M, "prim", prop="C13", ret="Result[opt[" + PE + "]]", lemmas=["wsumN"], strict_inf=True, prefer_cvc5=True, shards=4,
        types={"graph": PG, "start": "opt[U<Node>]", "nodes": "set[U<Node>]", "in_mst": "set[U<Node>]", "mst_edges": PE,
               "heap": "list[tuple[real,int,U<Node>,U<Node>]]", "pos": "map[U<Node>,int]", "total_weight": "real"},
        requires=["implies(not is_none(start), has(graph, val(start)))",
